@@ -154,13 +154,28 @@ def faultObs (ws : List String) : String :=
   -- `stop=1`: a connection is then held on the replacement worker and a graceful stop issued: the command loop
   -- (`ServerCmd`) stops every current worker, the replacement included, and the stop does not complete early
   let withStop : Option Bool := match kv ws "stop" with | none => some false | some "1" => some true | _ => none
-  match gapOk, withStop with
-  | true, some false => "before=12 killed=- window=22 replaced=1 later-all-served=1"
-  | true, some true =>
-    let run := ServerCmd.serve ServerCmd.srcWakeFirst 2 [.faulted 0, .stop true]
-    let waited := run.log.contains (.awaitWorker 0) && run.log.contains (.awaitWorker 1)
-    s!"before=12 killed=- window=22 replaced=1 later-all-served=1 stop={if run.returned then "resolved" else "never"} early={bit (!waited)}"
-  | _, _ => "bad-op"
+  let faults : Option Nat := match kv ws "faults" with | none => some 1 | some "1" => some 1 | some "2" => some 2 | _ => none
+  let limit : Option (Option Nat) := match kv ws "limit" with
+    | none => some none
+    | some l => match l.toNat? with | some l => if 1 ≤ l && l ≤ 4 then some (some l) else none | none => none
+  let workers : Option Nat := match kv ws "workers" with | none => some 2 | some "1" => some 1 | some "2" => some 2 | _ => none
+  match gapOk, withStop, faults, limit, workers with
+  | true, some st, some fl, some lim, some wk =>
+    let exact := lim.isNone && wk == 2
+    if st && !exact then "bad-op" else
+    -- every fault is reported once and the replacement comes up (C08 `restart_creates_replacement`, `replacement_rejoins`):
+    -- the command loop handles one `WorkerFaulted` per fault and keeps a handle for every index
+    let run := ServerCmd.serve ServerCmd.srcWakeFirst wk ((List.replicate fl (ServerCmd.Call.faulted 0)) ++ (if st then [.stop true] else []))
+    let restarts := (run.log.filter fun e => e == .restartWorker 0).length
+    let second := if fl == 2 then s!" killed2=- replaced2={bit (restarts ≥ 2)} later2-all-served=1" else ""
+    let head := if exact then s!"before=12 killed=- window=22 replaced={bit (restarts ≥ 1)} later-all-served=1"
+                else s!"before=2/2 killed=- replaced={bit (restarts ≥ 1)} later-all-served=1"
+    let stop := if st then
+        let waited := (List.range wk).all fun w => run.log.contains (.awaitWorker w)
+        s!" stop={if run.returned then "resolved" else "never"} early={bit (!waited)}"
+      else ""
+    head ++ second ++ stop
+  | _, _, _, _, _ => "bad-op"
 
 def sigObs (ws : List String) : String :=
   if kv ws "skip" == some "ports" then "skipped" else
